@@ -342,7 +342,6 @@ func (p *Policy) sanitize(r io.Reader, w io.Writer) error {
 				match := false
 				for regex := range p.elsMatchingAndAttrs {
 					if regex.MatchString(token.Data) {
-						skipElementContent = false
 						match = true
 						break
 					}
